@@ -1354,3 +1354,7 @@ mod tests {
         assert!(pto_with_jitter > Duration::ZERO);
     }
 }
+
+#[cfg(all(aws_s2n_quic_verif, any(test, all(kani, feature = "testing"))))]
+#[path = "/verif/harness/transport/path_amp.rs"]
+mod verif;
